@@ -604,8 +604,33 @@ impl Scenario for Fragmentation {
     fn rule(&self) -> String {
         "one call (header/directory read+write, archive open full/partial + lookups, archive write, read_directories, write_directories) executed on a plain stream and under k schedule policies (fixed chunk 1..k, one byte, random, tiny/huge, explicit compositions; async: Pending never/always/bursts, inline vs deferred wake, Pending on seek/flush/close); each evaluation = one (call, schedule); distinct = distinct (call, policy) pairs; non-trivial = policy is not plain".into()
     }
-    fn generate(&self, rng: &mut Rng, tier: Tier, _run: u64) -> Value {
-        let call = draw_call(rng, tier);
+    fn generate(&self, rng: &mut Rng, tier: Tier, run: u64) -> Value {
+        let mut call = draw_call(rng, tier);
+        if run < 6 {
+            // the first runs of a batch read a foreign archive holding one tile above 1 MiB (runs
+            // 0-2) or above 64 KiB (runs 3-5): opened and observed, looked up, written out again
+            let spec = loop {
+                let f = draw_foreign(rng, false);
+                let want_mib = run < 3;
+                if f.contents.iter().any(|c| if want_mib { c.len > 1 << 20 } else { c.len > 65_536 && c.len <= 1 << 20 }) && f.entries.iter().any(|e| f.contents[e.c as usize % f.contents.len()].len > 65_536) {
+                    break f;
+                }
+            };
+            // position of the first id with a large content among the archive's ids in order
+            let mut nth = 0u32;
+            for e in &spec.entries {
+                if spec.contents[e.c as usize % spec.contents.len()].len > 65_536 {
+                    break;
+                }
+                nth += e.run;
+            }
+            let src = ImageSrc::Foreign(spec);
+            call = match run % 3 {
+                0 => Call::Open { src, range: RangeSpec::ALL },
+                1 => Call::Lookup { src, nth },
+                _ => Call::Rewrite { src, on_reader: false },
+            };
+        }
         let face = Face::draw(rng);
         let small = matches!(call, Call::HeaderRead { .. } | Call::HeaderWrite { .. } | Call::DirRead { .. } | Call::DirWrite { .. });
         let heavy = matches!(&call, Call::Write { a, .. } if a.tiles.len() > 2000) || matches!(&call, Call::WriteDirs { n, .. } if *n > 1000);
